@@ -150,7 +150,12 @@ def check_raise_args(ctx):
                        for c in p.conds)
             gate = any(c.kind == 'test' and U(c.expr) == 'do_raise'
                        and c.pol for c in p.conds)
-            ok = args[:1] == ['rule'] and len(args) == 3 and cond and gate
+            # exactly (rule, target, creds): the caller's extra keyword
+            # arguments belong to the caller's own class only
+            plain = isinstance(e, ast.Call) and not e.keywords and not any(
+                isinstance(x, ast.Starred) for x in e.args)
+            ok = args[:1] == ['rule'] and len(args) == 3 and cond and gate \
+                and plain
             ctx.ob('C07.RAISE-ARGS', ok, '%s:%d' % (F, p.outcome.line),
                    enf.qual, p.outcome.text(),
                    'without a class, PolicyNotAuthorized names the policy'
